@@ -63,6 +63,18 @@ func scnCases(tier string, seed int64, forC09 bool) []runner.Case {
 			}
 		}
 	}
+	// a receive-only instance with a local application: its commits must survive the merges (nothing is ever uploaded)
+	if !forC09 {
+		for _, native := range []bool{true, false} {
+			for _, p := range []string{"loop.top", "loop.before_info", "loop.after_info", "send.before_txn", "send.after_txn", "load.before_txn", "load.after_txn", "load.done", "loop.end"} {
+				for _, k := range []string{"insert", "overwrite", "delete"} {
+					for _, rem := range []string{"nonews", "news"} {
+						add("receiveonly", Scn{Native: native, Point: p, Nth: 1, Kind: k, Remote: rem, ReceiveOnly: true})
+					}
+				}
+			}
+		}
+	}
 	// empty-value sub-family (insert/overwrite only)
 	for _, native := range []bool{true, false} {
 		for _, p := range []string{"loop.top", "load.after_txn", "send.after_txn", "loop.end"} {
